@@ -3,6 +3,7 @@
    output length), so collisions appear as explicit disjuncts, never as hidden assumptions. *)
 From Coq Require Import NArith List.
 From LV Require Import Model.Envelope Proofs.Envelope Gen.SegmentMap.
+From LV Require Import Model.Routing Proofs.Routing Model.CatalogueCodec Proofs.CatalogueCodec.
 Import ListNotations.
 Open Scope N_scope.
 
@@ -86,4 +87,61 @@ Example C14_example :
   load Hd (store Hd [1; 2; 3]) = Loaded [1; 2; 3] /\
   load Hd (flip_bit (store Hd [1; 2; 3]) 49 0) = Rejected /\
   load Hd (firstn 50 (store Hd [1; 2; 3])) = Rejected.
+Proof. vm_compute. repeat split. Qed.
+
+(* ---------- the catalogue (MetaStore::serialize / deserialize), at capnp FIELD level ---------- *)
+
+(* A catalogue whose entries have pairwise distinct (table, id) -- it is a map of maps -- and whose
+   per-partition index is the one both constructors build reads back exactly: every partition with its
+   id, table, offset, length, every sub-partition with size, file key and last column, in order; the
+   persisted flush cursor becomes both the cursor and the next WAL id. *)
+Theorem C14_catalogue_roundtrip :
+  forall m : meta, Distinct (ms_parts m) -> Forall index_ok (ms_parts m) ->
+    deserialize (serialize m) =
+      DeOk {| ms_next_wal := ms_cursor m; ms_cursor := ms_cursor m; ms_parts := ms_parts m |}.
+Proof. exact catalogue_roundtrip. Qed.
+
+(* ... and whatever index an entry carried, the reader rebuilds it from the sub-partitions it read *)
+Theorem C14_catalogue_roundtrip_reindexed :
+  forall m : meta, Distinct (ms_parts m) ->
+    deserialize (serialize m) =
+      DeOk {| ms_next_wal := ms_cursor m; ms_cursor := ms_cursor m; ms_parts := map reindex (ms_parts m) |}.
+Proof. intros m HD. apply catalogue_roundtrip_reindexed. apply distinct_reindex. exact HD. Qed.
+
+(* Catalogues written by older versions: a sub-partition's last column is the explicit field when it
+   is present, otherwise the bytewise greatest of the column names listed directly (v0) or through the
+   string table (v1) -- an upper bound of all of them and one of them (or "" when there are none). *)
+Theorem C14_catalogue_legacy_last :
+  forall strings s l, de_last strings s = Some l ->
+    exists cs, Forall2 (fun i c => nth_error strings (N.to_nat i) = Some c) (w_interned s) cs /\
+      match w_last s with
+      | [] => (forall c, In c (w_columns s ++ cs) -> sle c l) /\ (l = [] \/ In l (w_columns s ++ cs))
+      | _ => l = w_last s
+      end.
+Proof. exact de_last_spec. Qed.
+
+(* The reader's only panic is an interned column id outside the string table. *)
+Theorem C14_catalogue_reader_total :
+  forall g, ids_in_range g -> exists m, deserialize g = DeOk m.
+Proof. exact deserialize_total. Qed.
+
+(* A message that lists a (table, id) twice yields the later entry for that key. *)
+Theorem C14_catalogue_later_entry_wins :
+  forall p l, lookup (put p l) (pm_table p) (pm_id p) = Some p.
+Proof. exact lookup_put_same. Qed.
+
+(* non-vacuity: two tables, a partition with two files, a duplicated last column (the later file wins
+   in the index), a legacy v0/v1 sub-partition *)
+Example C14_catalogue_example :
+  let s1 := {| sm_size := 10; sm_key := [97]; sm_last := [97] |} in
+  let s2 := {| sm_size := 20; sm_key := [122]; sm_last := [122] |} in
+  let p1 := {| pm_id := 3; pm_table := [116]; pm_offset := 0; pm_len := 5; pm_subs := [s1; s2];
+               pm_index := [([97], 0); ([122], 1)] |} in
+  let p2 := {| pm_id := 3; pm_table := [117]; pm_offset := 5; pm_len := 7; pm_subs := [s2; s2];
+               pm_index := [([122], 1)] |} in
+  let m := {| ms_next_wal := 9; ms_cursor := 4; ms_parts := [p1; p2] |} in
+  deserialize (serialize m) = DeOk {| ms_next_wal := 4; ms_cursor := 4; ms_parts := [p1; p2] |} /\
+  de_last [[98]; [120]] {| w_size := 1; w_key := []; w_last := []; w_columns := [[99]; [97]];
+                           w_interned := [1; 0] |} = Some [120] /\
+  de_last [[98]] {| w_size := 1; w_key := []; w_last := []; w_columns := []; w_interned := [1] |} = None.
 Proof. vm_compute. repeat split. Qed.
